@@ -206,3 +206,49 @@ def body_cdecay_mother(sel: int) -> bool:
     if details(p, n) != exp:
         return fail(f"CDecay {n!r}: {details(p, n)}")
     return True
+
+
+# ---- the numbers of a conjugated / copied table for every value (hand-built tree behind a Lark stub) -------------------------------------
+N_VALUES = 3
+
+
+def body_cdecay_values(sel: int, x: float, y: float, z: float) -> bool:
+    import warnings
+    from lark import Tree
+    import decaylanguage.dec.dec as decmod
+    from decaylanguage.dec.dec import DecFileParser
+    from .c01 import Tok, _StubLark
+    T = lambda name, *ch: Tree(name, list(ch))
+
+    def line(bf, ds, model, params=None, photos=False):
+        ch = [T("value", Tok(bf))] + [T("particle", Tok(d)) for d in ds] + ([T("photos")] if photos else [])
+        m = [Tok(model)] + ([T("model_options", *[T("value", Tok(p)) if not isinstance(p, str) else Tok(p) for p in params])] if params else [])
+        return T("decayline", *ch, T("model", *m))
+    src = T("decay", T("particle", Tok("MyD0")), line(x, ["K-", "pi+", "MyK+"], "SSD_CP", [y, "word", z], True), line(y, ["K_S0", "pi0"], "PHSP"),
+            line(z, [], "VSS", [x]))
+    decl = [T("alias", Tok("MyD0"), Tok("D0")), T("alias", Tok("MyAntiD0"), Tok("anti-D0")), T("alias", Tok("MyK+"), Tok("K+")), T("alias", Tok("MyK-"), Tok("K-")),
+            T("chargeconj", Tok("MyK-"), Tok("MyK+")), T("chargeconj", Tok("MyD0"), Tok("MyAntiD0")) if sel != 1 else T("chargeconj", Tok("MyAntiD0"), Tok("MyD0"))]
+    extra = [T("cdecay", Tok("MyAntiD0"))]
+    if sel == 2:
+        extra = [T("copydecay", T("label", Tok("MyCopy")), T("label", Tok("MyD0"))), T("chargeconj", Tok("MyCopy"), Tok("MyAntiCopy")),
+                 T("cdecay", Tok("MyAntiCopy")), T("cdecay", Tok("MyAntiD0"))]
+    _StubLark.tree = T("start", *(extra[:1] + decl + [src] + extra[1:]))
+    old = decmod.Lark
+    decmod.Lark = _StubLark
+    try:
+        p = DecFileParser.from_string("given as a tree")
+        with warnings.catch_warnings():
+            warnings.simplefilter("ignore")
+            p.parse()
+    finally:
+        decmod.Lark = old
+    lines_src = [{"bf": x, "fs": ["K-", "pi+", "MyK+"], "model": "PHOTOS SSD_CP", "model_params": [y, "word", z]},
+                 {"bf": y, "fs": ["K_S0", "pi0"], "model": "PHSP", "model_params": ""}, {"bf": z, "fs": [], "model": "VSS", "model_params": [x]}]
+    lines_cc = [dict(lines_src[0], fs=["K+", "pi-", "MyK-"]), dict(lines_src[1], fs=["K_S0", "pi0"]), dict(lines_src[2])]
+    exp = {"MyD0": lines_src, "MyAntiD0": lines_cc}
+    if sel == 2:
+        exp.update({"MyCopy": lines_src, "MyAntiCopy": lines_cc})
+    got = {m: details(p, m) for m in p.list_decay_mother_names()}
+    if got != exp:
+        return fail(f"tables for x={x!r}, y={y!r}, z={z!r}: {got!r}, expected {exp!r}")
+    return True
